@@ -537,6 +537,42 @@ def call_key_of(cal):
         return cal.key()
 
 
+TRUNCATING = {"map_while", "take_while", "take", "skip", "skip_while", "step_by", "nth", "find", "find_map", "position", "last", "next_back", "rev", "truncate", "pop", "drain"}
+
+
+def r18_10(ctx):
+    """The C header list is read to its end: the walk over the nodes stops only when the list is
+    exhausted (a node that cannot be read is skipped, not taken for the end).  That every way round the
+    loop moves to the next node is R07.6."""
+    F = ctx.facts
+    from riolib.sym import TooManyPaths
+    from riolib.prov import walk
+
+    def body(r):
+        f = F.fn("http::ffi::header_map_to_http_headers")
+        r.analysed(f)
+        bodies = f.all_bodies()
+        trunc = sorted({cal.name for b in bodies for bi, t, cal in b.calls() if cal is not None and not cal.local and cal.name in TRUNCATING and (cal.def_trait or cal.trait or "").startswith("std::iter")})
+        r.ob("list-walk:no-truncating-adaptor", not trunc, f.site, "iterator adaptors that can end the walk early: %s" % trunc)
+        loops = 0
+        early = 0
+        for b in bodies:
+            for h in sorted({h for a, h in b.back_edges()}):
+                region = b.loop_blocks(h)
+                try:
+                    ps = Sym(b, copies=True, max_paths=20000).paths(start=h, stops={h}, region=region)
+                except TooManyPaths:
+                    early += 1
+                    continue
+                loops += 1
+                firsts = {p.conds[0][0] for p in ps if p.conds}
+                for p in ps:
+                    if p.end[0] in ("exit", "ret") and not (len(p.conds) == 1 and len(firsts) == 1):
+                        early += 1
+        r.ob("list-walk:ends-only-when-exhausted", early == 0, f.site, "%d loop(s); ways out of a loop other than its own end-of-list test: %d" % (loops, early))
+    ctx.run_rule("R18.10", "the header list handed over by the caller is read to its end", body, floor=2)
+
+
 def run(ctx):
     r18_8(ctx)
     r18_1(ctx)
@@ -547,3 +583,4 @@ def run(ctx):
     r18_6(ctx)
     r18_7(ctx)
     r18_9(ctx)
+    r18_10(ctx)
